@@ -16,75 +16,149 @@ Section Origin.
      produced by writing a row of a configured statement *)
   Variable Q : bmsg -> Prop.
   Definition configured (s : stmt) : Prop := exists q ss, lookup_parse (sc_parse sc) q = POk ss /\ In s ss.
-  Hypothesis Qother : forall m, (match m with BDataRow _ => False | _ => True end) -> Q m.
+  (* the library's own errors, and the errors configured callbacks return *)
+  Inductive lib_err : err -> Prop :=
+  | le_closed : lib_err e_closed_writer | le_ueof : lib_err e_unexpected_eof | le_eof : lib_err e_eof
+  | le_size : forall a b, lib_err (e_size_exceeded a b) | le_unimpl : forall t, lib_err (e_unimplemented t)
+  | le_undef : lib_err e_undefined_stmt | le_nocols : lib_err e_no_columns | le_written : lib_err e_data_written
+  | le_ustmt : forall n, lib_err (e_unknown_stmt n) | le_uportal : forall n, lib_err (e_unknown_portal n)
+  | le_udesc : lib_err e_unknown_describe | le_uclose : lib_err e_unknown_close | le_panic : lib_err e_panic
+  | le_multi : lib_err e_multiple_stmts | le_nul : lib_err e_missing_nul | le_pw : lib_err e_invalid_password
+  | le_encode : lib_err e_encode | le_copyfail : forall d, lib_err (e_copy_failed d) | le_arity : forall a b, lib_err (e_arity a b)
+  | le_ustmt2 : lib_err (EBase (bs "unknown statement")) | le_uportal2 : lib_err (EBase (bs "unknown portal")).
+  Definition conf_err (e : err) : Prop :=
+    (exists q, lookup_parse (sc_parse sc) q = PErr e) \/ (exists s, configured s /\ s_ret s = RetErr e).
+  Definition err_src (e : err) : Prop := lib_err e \/ conf_err e.
+  Hypothesis Qother : forall m, (match m with BDataRow _ | BError _ | BRowDesc _ => False | _ => True end) -> Q m.
+  Hypothesis Qdesc : forall s fmts, configured s -> Q (row_desc (s_cols s) fmts).
   Hypothesis Qrow : forall s fmts vs fields, configured s -> In (HRow vs) (s_prog s) ->
     write_row encode_value (s_cols s) fmts vs = RowOk fields -> Q (BDataRow fields).
+  Hypothesis Qerr : forall e, err_src e -> Q (err_msg (Some e)).
 
   Definition qall (evs : list ev) : Prop := Forall Q (Oracles.outs evs).
   Lemma qall_app a b : qall a -> qall b -> qall (a ++ b).
   Proof. unfold qall. rewrite oouts_app. intros A B. apply Forall_app. split; assumption. Qed.
   Lemma qall_nil : qall [].
   Proof. constructor. Qed.
-  Lemma qall_cons_other e r : (match e with Out (BDataRow _) => False | _ => True end) -> qall r -> qall (e :: r).
+  Lemma qall_cons_other e r : (match e with Out (BDataRow _) | Out (BError _) | Out (BRowDesc _) => False | _ => True end) -> qall r -> qall (e :: r).
   Proof.
     intros H R. unfold qall. destruct e; cbn [Oracles.outs flat_map app]; try exact R.
     constructor; [apply Qother; destruct m; try exact I; exact H|exact R].
   Qed.
-  Ltac neutral := repeat (apply qall_cons_other; [exact I|]); try apply qall_nil.
+  Lemma qall_cons_err e r : err_src e -> qall r -> qall (Out (err_msg (Some e)) :: r).
+  Proof. intros H R. unfold qall. cbn [Oracles.outs flat_map app]. constructor; [apply Qerr; exact H|exact R]. Qed.
+  Local Hint Constructors lib_err : liberr.
+  Ltac neutral := repeat first [apply qall_cons_other; [exact I|] | apply qall_cons_err; [solve [left; auto with liberr | assumption]|]]; try apply qall_nil.
+
+  (* the error a handler's DataWriter remembers comes from the library *)
+  Definition wl_ok (w : wstate) : Prop := forall e, w_last w = Some e -> err_src e.
+  Lemma copy_read_err L : forall fs tl evs e rest, copy_read L fs tl = (evs, OErr e, rest) -> lib_err e.
+  Proof.
+    induction fs as [|f fr IH]; intros tl evs e rest H; cbn [copy_read] in H.
+    - destruct tl; cbn in H; [discriminate|injection H as _ <- _; constructor].
+    - destruct f as [t body|t size [x|]|t size|].
+      + destruct (Byte.eqb t x48 || Byte.eqb t x53).
+        * destruct (copy_read L fr tl) as [[evs0 r0] rest0] eqn:E. injection H as _ -> _. eapply IH; eauto.
+        * destruct (Byte.eqb t x64); [discriminate|]. destruct (Byte.eqb t x63); [discriminate|].
+          destruct (Byte.eqb t x66); [destruct (take_cstr body) as [[d x]|]|]; injection H as _ <- _; constructor.
+      + destruct x; cbn in H; [discriminate|injection H as _ <- _; constructor].
+      + injection H as _ <- _; constructor.
+      + injection H as _ <- _; constructor.
+      + injection H as _ <- _; constructor.
+  Qed.
 
   Lemma copy_read_q L : forall fs tl evs r rest, copy_read L fs tl = (evs, r, rest) -> qall evs.
   Proof.
     intros fs tl evs r rest H. destruct (copy_read_spec _ _ _ _ _ _ H) as (A & _). unfold qall. rewrite outs_eq, A. constructor.
   Qed.
 
-  Lemma run_op_q s fmts o w fs tl evs w' fs' st :
-    configured s -> In o (s_prog s) ->
-    run_op (cfg_of_case sc) (s_cols s) fmts o w fs tl = (evs, w', fs', st) -> qall evs.
+  Lemma write_row_err cols fmts vs e : write_row encode_value cols fmts vs = RowErr e -> lib_err e.
   Proof.
-    intros P Ho H. destruct o as [vs| | |tag|f|]; cbn [run_op] in H.
-    - destruct (w_closed w); [injection H as <- <- <- <-; neutral|].
+    unfold write_row. destruct (negb (lenZ vs =? lenZ cols)); [intros H; injection H as <-; constructor|].
+    generalize 0%nat. revert vs. induction cols as [|c cr IH]; intros vs i H; [cbn in H; discriminate|].
+    destruct vs as [|v vr]; cbn [Session.enc_fields] in H; [discriminate|].
+    destruct (encode_value (c_oid c) (fmt_for fmts i) v); try discriminate.
+    - destruct (Session.enc_fields encode_value cr fmts (S i) vr) eqn:E; try discriminate. injection H as <-. eapply IH; eauto.
+    - destruct (Session.enc_fields encode_value cr fmts (S i) vr) eqn:E; try discriminate. injection H as <-. eapply IH; eauto.
+    - injection H as <-. constructor.
+  Qed.
+
+  Lemma wl_fail w e : err_src e -> wl_ok (w_fail w e).
+  Proof. intros H e0 E. cbn in E. injection E as <-. exact H. Qed.
+
+  Lemma run_op_q s fmts o w fs tl evs w' fs' st :
+    configured s -> In o (s_prog s) -> wl_ok w ->
+    run_op (cfg_of_case sc) (s_cols s) fmts o w fs tl = (evs, w', fs', st) -> qall evs /\ wl_ok w'.
+  Proof.
+    intros P Ho Wl H.
+    assert (LF : forall e, lib_err e -> wl_ok (w_fail w e)) by (intros e He; apply wl_fail; left; exact He).
+    destruct o as [vs| | |tag|f|]; cbn [run_op] in H.
+    - destruct (w_closed w); [injection H as <- <- <- <-; split; [neutral|apply LF; constructor]|].
       cbn [cfg_of_case cfg_encode] in H.
-      destruct (write_row encode_value (s_cols s) fmts vs) as [fields|e|] eqn:E; injection H as <- <- <- <-; [|neutral|neutral].
-      unfold qall. cbn [Oracles.outs flat_map app]. constructor; [|constructor]. eapply Qrow; eauto.
-    - injection H as <- <- <- <-. neutral.
-    - destruct (w_closed w); [|destruct (negb (w_written w =? 0))]; injection H as <- <- <- <-; neutral.
-    - destruct (w_closed w); injection H as <- <- <- <-; neutral.
-    - destruct (w_closed w); [|destruct (s_cols s)]; injection H as <- <- <- <-; neutral.
-    - destruct (negb (w_copy w)); [injection H as <- <- <- <-; neutral|].
+      destruct (write_row encode_value (s_cols s) fmts vs) as [fields|e|] eqn:E; injection H as <- <- <- <-.
+      + split; [|exact Wl]. unfold qall. cbn [Oracles.outs flat_map app]. constructor; [|constructor]. eapply Qrow; eauto.
+      + split; [neutral|apply LF; eapply write_row_err; eauto].
+      + split; [neutral|exact Wl].
+    - injection H as <- <- <- <-. split; [neutral|exact Wl].
+    - destruct (w_closed w); [|destruct (negb (w_written w =? 0))]; injection H as <- <- <- <-; (split; [neutral|]); [apply LF; constructor|apply LF; constructor|exact Wl].
+    - destruct (w_closed w); injection H as <- <- <- <-; (split; [neutral|]); [apply LF; constructor|exact Wl].
+    - destruct (w_closed w); [|destruct (s_cols s)]; injection H as <- <- <- <-; (split; [neutral|]); [apply LF; constructor|apply LF; constructor|exact Wl].
+    - destruct (negb (w_copy w)); [injection H as <- <- <- <-; split; [neutral|exact Wl]|].
       destruct (copy_read (cfg_limit (cfg_of_case sc)) fs tl) as [[evs0 r] rest] eqn:E.
       pose proof (copy_read_q _ _ _ _ _ _ E) as K.
-      destruct r; injection H as <- <- <- <-; (apply qall_app; [exact K|neutral]).
+      destruct r; injection H as <- <- <- <-; (split; [apply qall_app; [exact K|neutral]|]); try exact Wl.
+      apply LF. eapply copy_read_err; eauto.
   Qed.
 
   Lemma run_ops_q s fmts stop : configured s -> forall ops w fs tl evs w' fs' res,
-    (forall o, In o ops -> In o (s_prog s)) ->
-    run_ops (cfg_of_case sc) (s_cols s) fmts stop ops w fs tl = (evs, w', fs', res) -> qall evs.
+    (forall o, In o ops -> In o (s_prog s)) -> wl_ok w ->
+    run_ops (cfg_of_case sc) (s_cols s) fmts stop ops w fs tl = (evs, w', fs', res) ->
+    qall evs /\ wl_ok w' /\ (forall e, res = Some (PErrR e) -> err_src e).
   Proof.
-    intros P. induction ops as [|o r IH]; intros w fs tl evs w' fs' res Sub H; cbn [run_ops] in H.
-    - injection H as <- <- <- <-. apply qall_nil.
+    intros P. induction ops as [|o r IH]; intros w fs tl evs w' fs' res Sub Wl H; cbn [run_ops] in H.
+    - injection H as <- <- <- <-. split; [apply qall_nil|split; [exact Wl|discriminate]].
     - destruct (run_op (cfg_of_case sc) (s_cols s) fmts o w fs tl) as [[[evs1 w1] fs1] st] eqn:E1.
-      pose proof (run_op_q _ _ _ _ _ _ _ _ _ _ P (Sub o (or_introl eq_refl)) E1) as K1.
+      destruct (run_op_q _ _ _ _ _ _ _ _ _ _ P (Sub o (or_introl eq_refl)) Wl E1) as [K1 W1].
       assert (Sub' : forall o0, In o0 r -> In o0 (s_prog s)) by (intros o0 Ho; apply Sub; right; exact Ho).
       destruct st.
       + destruct (run_ops (cfg_of_case sc) (s_cols s) fmts stop r w1 fs1 tl) as [[[evs2 w2] fs2] res2] eqn:E2.
-        injection H as <- <- <- <-. apply qall_app; [exact K1|]. eapply IH; eauto.
+        injection H as <- <- <- <-. destruct (IH _ _ _ _ _ _ _ Sub' W1 E2) as (A & B & C). split; [apply qall_app; assumption|split; assumption].
       + destruct stop.
-        * injection H as <- <- <- <-. exact K1.
+        * injection H as <- <- <- <-. split; [exact K1|split; [exact W1|]].
+          intros e He. destruct (w_last w1) as [e1|] eqn:L; [|discriminate]. injection He as <-. apply W1. exact L.
         * destruct (run_ops (cfg_of_case sc) (s_cols s) fmts false r w1 fs1 tl) as [[[evs2 w2] fs2] res2] eqn:E2.
-          injection H as <- <- <- <-. apply qall_app; [exact K1|]. eapply IH; eauto.
-      + injection H as <- <- <- <-. exact K1.
+          injection H as <- <- <- <-. destruct (IH _ _ _ _ _ _ _ Sub' W1 E2) as (A & B & C). split; [apply qall_app; assumption|split; assumption].
+      + injection H as <- <- <- <-. split; [exact K1|split; [exact W1|discriminate]].
   Qed.
 
+  Lemma wl_init : wl_ok w_init.
+  Proof. intros e H. discriminate. Qed.
+
   Lemma run_stmt_q s fmts params fs tl evs fs' res :
-    configured s -> run_stmt (cfg_of_case sc) s fmts params fs tl = (evs, fs', res) -> qall evs.
+    configured s -> run_stmt (cfg_of_case sc) s fmts params fs tl = (evs, fs', res) ->
+    qall evs /\ (forall e, res = PErrR e -> err_src e).
   Proof.
     unfold run_stmt. intros P H.
     destruct (run_ops (cfg_of_case sc) (s_cols s) fmts (s_stop s) (s_prog s) w_init fs tl) as [[[evs0 w] fs0] r0] eqn:E.
-    injection H as <- <- <-. apply qall_cons_other; [exact I|]. eapply run_ops_q; eauto.
+    destruct (run_ops_q _ _ _ P _ _ _ _ _ _ _ _ (fun o Ho => Ho) wl_init E) as (A & B & C).
+    injection H as <- <- <-. split; [apply qall_cons_other; [exact I|exact A]|].
+    intros e He. destruct r0 as [r|].
+    - subst r. apply C. reflexivity.
+    - destruct (s_ret s) eqn:R; try discriminate.
+      + injection He as <-. right. right. exists s. split; assumption.
+      + destruct (w_last w) as [e1|] eqn:L; [|discriminate]. injection He as <-. apply B. exact L.
   Qed.
 
-  Lemma define_q cols fmts : qall (define_evs cols fmts).
-  Proof. destruct cols; neutral. Qed.
+  Lemma define_q s fmts : configured s -> qall (define_evs (s_cols s) fmts).
+  Proof.
+    intros C. unfold define_evs, qall. destruct (s_cols s) eqn:E; [constructor|]. rewrite <- E.
+    cbn [Oracles.outs flat_map app]. constructor; [apply Qdesc; exact C|constructor].
+  Qed.
+  Lemma describe_q s fmts r : configured s -> qall r -> qall (Out (describe_cols (s_cols s) fmts) :: r).
+  Proof.
+    intros C R. unfold describe_cols. destruct (s_cols s) eqn:E; [apply qall_cons_other; [exact I|exact R]|]. rewrite <- E.
+    unfold qall. cbn [Oracles.outs flat_map app]. constructor; [apply Qdesc; exact C|exact R].
+  Qed.
 
   Lemma run_stmts_q : forall ss fs tl evs fs' crashed,
     (forall s, In s ss -> configured s) -> run_stmts (cfg_of_case sc) ss fs tl = (evs, fs', crashed) -> qall evs.
@@ -92,13 +166,14 @@ Section Origin.
     induction ss as [|s r IH]; intros fs tl evs fs' crashed P H; cbn [run_stmts] in H.
     - injection H as <- <- <-. neutral.
     - destruct (run_stmt (cfg_of_case sc) s [] [] fs tl) as [[evs1 fs1] res] eqn:E1.
-      pose proof (run_stmt_q _ _ _ _ _ _ _ _ (P s (or_introl eq_refl)) E1) as K1.
+      destruct (run_stmt_q _ _ _ _ _ _ _ _ (P s (or_introl eq_refl)) E1) as [K1 Ke].
       assert (P' : forall s0, In s0 r -> configured s0) by (intros s0 Hs; apply P; right; exact Hs).
       destruct res.
       + destruct (run_stmts (cfg_of_case sc) r fs1 tl) as [[evs2 fs2] cr] eqn:E2.
-        injection H as <- <- <-. apply qall_app; [apply define_q|]. apply qall_app; [exact K1|]. eapply IH; eauto.
-      + injection H as <- <- <-. apply qall_app; [apply define_q|]. apply qall_app; [exact K1|neutral].
-      + injection H as <- <- <-. apply qall_app; [apply define_q|]. apply qall_app; [exact K1|neutral].
+        injection H as <- <- <-. apply qall_app; [apply define_q; apply P; left; reflexivity|]. apply qall_app; [exact K1|]. eapply IH; eauto.
+      + injection H as <- <- <-. apply qall_app; [apply define_q; apply P; left; reflexivity|]. apply qall_app; [exact K1|].
+        apply qall_cons_err; [apply Ke; reflexivity|neutral].
+      + injection H as <- <- <-. apply qall_app; [apply define_q; apply P; left; reflexivity|]. apply qall_app; [exact K1|neutral].
   Qed.
 
   (* every cached statement and every portal's statement comes from the parser table *)
@@ -117,7 +192,8 @@ Section Origin.
         unfold simple_query in Qq. destruct (take_cstr body) as [[q r0]|]; [|injection Qq as <- <- <-; apply qall_nil].
         destruct (is_blank q); [injection Qq as <- <- <-; neutral|].
         cbn [cfg_of_case cfg_parse] in Qq.
-        destruct (lookup_parse (sc_parse sc) q) as [e|ss] eqn:Ep; [injection Qq as <- <- <-; neutral|].
+        destruct (lookup_parse (sc_parse sc) q) as [e|ss] eqn:Ep.
+        { injection Qq as <- <- <-. apply qall_cons_other; [exact I|]. apply qall_cons_err; [right; left; exists q; exact Ep|neutral]. }
         destruct ss as [|s1 r]; [injection Qq as <- <- <-; neutral|].
         destruct (run_stmts (cfg_of_case sc) (s1 :: r) rest tl) as [[evs1 fs1] cr] eqn:E. injection Qq as <- <- <-.
         apply qall_cons_other; [exact I|]. eapply run_stmts_q; eauto.
@@ -127,8 +203,9 @@ Section Origin.
         destruct (p_u32 l1) as [pu|]; [|injection H as <- <- <- <-; split; [apply qall_nil|exact Iv]].
         destruct (alist_get name (st_portals st)) as [p|] eqn:G.
         - destruct (run_stmt (cfg_of_case sc) (p_stmt p) (p_rfmts p) (p_params p) rest tl) as [[evs1 fs1] res] eqn:E.
-          pose proof (run_stmt_q _ _ _ _ _ _ _ _ (I2 _ _ G) E) as K.
-          destruct res; unfold ext_err in H; injection H as <- <- <- <-; (split; [|exact Iv]); [exact K|apply qall_app; [exact K|neutral]|apply qall_app; [exact K|neutral]].
+          destruct (run_stmt_q _ _ _ _ _ _ _ _ (I2 _ _ G) E) as [K Ke].
+          destruct res; unfold ext_err in H; injection H as <- <- <- <-; (split; [|exact Iv]);
+            [exact K|apply qall_app; [exact K|apply qall_cons_err; [apply Ke; reflexivity|apply qall_nil]]|apply qall_app; [exact K|neutral]].
         - unfold ext_err in H. injection H as <- <- <- <-. split; [neutral|exact Iv]. }
       destruct (Byte.eqb t x50).
       { destruct (do_parse (cfg_of_case sc) st body) as [[evs0 st0] k0] eqn:Qq. injection H as <- <- <- <-.
@@ -136,7 +213,9 @@ Section Origin.
         destruct (take_cstr l1) as [[q l2]|]; [|injection Qq as <- <- <-; split; [apply qall_nil|exact Iv]].
         destruct (p_u16 l2) as [pu|]; [|injection Qq as <- <- <-; split; [apply qall_nil|exact Iv]].
         cbn [cfg_of_case cfg_parse] in Qq.
-        destruct (lookup_parse (sc_parse sc) q) as [e|[|s1 [|s2 r]]] eqn:Ep; unfold ext_err in Qq; injection Qq as <- <- <-; try (split; [neutral|exact Iv]).
+        destruct (lookup_parse (sc_parse sc) q) as [e|[|s1 [|s2 r]]] eqn:Ep; unfold ext_err in Qq; injection Qq as <- <- <-;
+          [split; [apply qall_cons_other; [exact I|]; apply qall_cons_err; [right; left; exists q; exact Ep|apply qall_nil]|exact Iv]| | |];
+          try (split; [neutral|exact Iv]).
         split; [neutral|]. split; cbn [st_stmts st_portals]; [|exact I2].
         apply alist_get_set_inv; [|exact I1]. exists q, [s1]. split; [exact Ep|left; reflexivity]. }
       destruct (Byte.eqb t x44).
@@ -144,11 +223,11 @@ Section Origin.
         unfold do_describe in Qq. destruct body as [|kd l1]; [injection Qq as <- <- <-; split; [apply qall_nil|exact Iv]|].
         destruct (take_cstr l1) as [[name l2]|]; [|injection Qq as <- <- <-; split; [apply qall_nil|exact Iv]].
         destruct (Byte.eqb kd x53).
-        + destruct (alist_get name (st_stmts st)) as [s0|]; unfold ext_err in Qq; injection Qq as <- <- <-; (split; [|exact Iv]); [|neutral].
-          unfold describe_cols. destruct (s_cols s0); neutral.
+        + destruct (alist_get name (st_stmts st)) as [s0|] eqn:G; unfold ext_err in Qq; injection Qq as <- <- <-; (split; [|exact Iv]); [|neutral].
+          apply qall_cons_other; [exact I|]. apply describe_q; [eapply I1; eauto|apply qall_nil].
         + destruct (Byte.eqb kd x50); [|unfold ext_err in Qq; injection Qq as <- <- <-; split; [neutral|exact Iv]].
-          destruct (alist_get name (st_portals st)) as [p|]; unfold ext_err in Qq; injection Qq as <- <- <-; (split; [|exact Iv]); [|neutral].
-          unfold describe_cols. destruct (s_cols (p_stmt p)); neutral. }
+          destruct (alist_get name (st_portals st)) as [p|] eqn:G; unfold ext_err in Qq; injection Qq as <- <- <-; (split; [|exact Iv]); [|neutral].
+          apply describe_q; [eapply I2; eauto|apply qall_nil]. }
       destruct (Byte.eqb t x53); [injection H as <- <- <- <-; split; [neutral|exact Iv]|].
       destruct (Byte.eqb t x42).
       { destruct (do_bind st body) as [[evs0 st0] k0] eqn:Qq. injection H as <- <- <- <-.
@@ -324,6 +403,48 @@ Theorem rows_come_from_handlers sc : Forall (row_from sc) (Oracles.outs (run_cas
 Proof.
   apply (serve_q sc (row_from sc)).
   - intros m H. destruct m; try exact I. destruct H.
+  - intros s fmts _. exact I.
   - intros s fmts vs fields C Hin W. destruct (write_row_decode _ _ _ _ W) as (A & B & D).
     exists s, vs, fmts. auto.
+  - intros e _. exact I.
+Qed.
+
+(* ---------- where the ErrorResponse messages of a connection come from ---------- *)
+(* each one is the rendering [err_fields] of an error value that is either one of the library's own errors or
+   the very error a configured callback returned (the parse function for that query text, or the statement
+   function of a configured statement): no path of the session adds, drops or recodes a decoration *)
+Definition err_from (sc : scase) (m : bmsg) : Prop :=
+  match m with
+  | BError fs => exists e, err_src sc e /\ fs = err_fields (Some e)
+  | _ => True
+  end.
+
+Theorem errors_come_from_callbacks sc : Forall (err_from sc) (Oracles.outs (run_case sc)).
+Proof.
+  apply (serve_q sc (err_from sc)).
+  - intros m H. destruct m; try exact I; destruct H.
+  - intros s fmts _. exact I.
+  - intros s fmts vs fields _ _ _. exact I.
+  - intros e H. exists e. split; [exact H|reflexivity].
+Qed.
+
+(* ---------- where the RowDescription messages come from ---------- *)
+(* each one describes the columns of a configured statement (as many fields as it has columns, in order)
+   under some result-format list *)
+Definition desc_from (sc : scase) (m : bmsg) : Prop :=
+  match m with
+  | BRowDesc cds => exists s fmts, configured sc s /\ cds = coldescs (s_cols s) fmts 0 /\ List.length cds = List.length (s_cols s)
+  | _ => True
+  end.
+
+Lemma coldescs_length : forall cols fmts i, List.length (coldescs cols fmts i) = List.length cols.
+Proof. induction cols as [|c cr IH]; intros fmts i; [reflexivity|]. cbn [coldescs List.length]. rewrite IH. reflexivity. Qed.
+
+Theorem rowdescs_come_from_statements sc : Forall (desc_from sc) (Oracles.outs (run_case sc)).
+Proof.
+  apply (serve_q sc (desc_from sc)).
+  - intros m H. destruct m; try exact I; destruct H.
+  - intros s fmts C. exists s, fmts. split; [exact C|split; [reflexivity|apply coldescs_length]].
+  - intros s fmts vs fields _ _ _. exact I.
+  - intros e _. exact I.
 Qed.
